@@ -38,7 +38,7 @@ META = {
 _NAME = st.sampled_from(["foo", "foo_bar", "Foo.Bar", "a", "zope.interface", "foo__bar", "f00", "x_1", "A_B_C"])
 _VER = st.sampled_from(["1.0", "1.0.post1", "2!1.0", "1.0a1", "1.0+local.1", "1.0.dev0", "2024.1.15", "0", "1.0rc1.post2.dev3"])
 _BUILD = st.sampled_from([None, None, None, "1", "1abc", "2_b", "20240101"])
-_PY = st.lists(st.sampled_from(["py3", "py2", "cp39", "cp310", "pp39", "py38", "cp313", "pt38", "PY3", "CP39", "cp39rc1", "py3_10", "cpx"]), min_size=1, max_size=3, unique=True).map(".".join)
+_PY = st.lists(st.sampled_from(["py3", "py2", "cp39", "cp310", "pp39", "py38", "cp313", "pt38", "PY3", "CP39", "cp39rc1", "py3_10", "cpx", "py3b", "py31rc1", "cp3a"]), min_size=1, max_size=3, unique=True).map(".".join)
 _ABI = st.lists(st.sampled_from(["none", "abi3", "cp39", "cp310t", "pypy39_pp73", "cp313t", "cp27mu", "NONE", "ABI3"]), min_size=1, max_size=3, unique=True).map(".".join)
 _PLAT = st.lists(
     st.sampled_from(["any", "manylinux_2_17_x86_64", "manylinux2014_x86_64", "win_amd64", "macosx_10_9_universal2", "linux_armv7l", "musllinux_1_1_aarch64", "manylinux_2_28_ppc64le", "win32", "macosx_11_0_arm64", "ANY", "Win_AMD64"]),
